@@ -803,6 +803,133 @@ def helicity_ls_restrictions(ctx):
 
 
 # =================================================================================================
+# C13 / 4   ls_selector="qr": as many couplings as independent helicity amplitudes, spanning the same space
+# =================================================================================================
+@group(["C13"], "amp.core.HelicityDecay.get_ls_list/qr_selector", ["amp.core:ls_selector_qr", "amp.core:HelicityDecay.get_ls_list"],
+       env="tf", kind="G", cost=4,
+       bound="(ja,jb,jc) in {0,1/2,1,3/2,2}^3 (thorough: up to 5/2) x parity-even / parity-odd / parity-violating x daughter helicity lists {full, ends only (massless)}; "
+             "ranks computed exactly (sympy over the algebraic numbers sqrt(p/q) of the Racah formula)",
+       assumes=["runs in the real-TensorFlow worker (historical choice)"])
+def qr_selector(ctx):
+    import sympy
+
+    particle = ctx.mod("particle")
+    core = ctx.mod("amp.core")
+    cg_selfcheck()
+    A = Agg(ctx)
+    A.declare("defined", "HelicityDecay(ls_selector='qr').get_ls_list() returns")
+    A.declare("sublist_of_full", "the selected couplings are a sub-list of the full (l,s) list")
+    A.declare("count==rank", "number of selected couplings == rank of the LS -> helicity map restricted to the allowed helicity pairs (the number of independent helicity amplitudes)")
+    A.declare("selected_span_everything", "the LS -> helicity map restricted to the SELECTED couplings has the same rank (every physical configuration stays reachable)")
+    vals = _spin_values(5 if ctx.tier == "thorough" else 4)
+
+    def exact(sg, sq):
+        return sg * sympy.sqrt(sympy.Rational(sq.numerator, sq.denominator))
+
+    import contextlib
+    import io
+
+    for ja, jb, jc in itertools.product(vals, repeat=3):
+        for v in _variants(False):
+            pa, pb, pc, p_break, C = v
+            for restrict in (False, True):
+                if restrict and not Fraction(jb) >= 1:
+                    continue
+                kw = {"spins": [-jb, jb]} if restrict else {}
+
+                def mk(**opt):
+                    a = particle.BaseParticle(uid("A"), J=ja, P=pa)
+                    b = particle.BaseParticle(uid("B"), J=jb, P=pb, **kw)
+                    c = particle.BaseParticle(uid("C"), J=jc, P=pc)
+                    return core.HelicityDecay(a, [b, c], p_break=p_break, disable=True, **opt), b, c
+
+                d0, b0, c0 = mk()
+                ok, full = call(d0.get_ls_list)
+                if not ok or not full:
+                    continue
+                d1, b1, c1 = mk(ls_selector="qr")
+                with contextlib.redirect_stdout(io.StringIO()):
+                    ok, sel = call(d1.get_ls_list)
+                w = {"ja": spell(ja), "jb": spell(jb), "jc": spell(jc), "pa": pa, "pb": pb, "pc": pc, "p_break": p_break, "daughter_b_helicities": [spell(x) for x in b1.spins]}
+                ctx.count(key=(spell(ja), spell(jb), spell(jc), v, restrict), sample=w)
+                if not A.add("defined", ok, "raised %s" % (sel,), w):
+                    continue
+                full = [(l, Fraction(s_)) for l, s_ in full]
+                sel = [(l, Fraction(s_)) for l, s_ in sel]
+                it = iter(full)
+                A.add("sublist_of_full", all(any(x == y for y in it) for x in sel), "selected %r, full %r" % (sel, full), w)
+                pairs = [(Fraction(lb), Fraction(lc)) for lb in b1.spins for lc in c1.spins if abs(Fraction(lb) - Fraction(lc)) <= Fraction(ja)]
+                if not pairs:
+                    continue
+
+                def mat(cols):
+                    return sympy.Matrix([[exact(*spec_ls2hel(ja, jb, jc, l, s_, lb, lc)) for (l, s_) in cols] for (lb, lc) in pairs])
+
+                r_full = mat(full).rank()
+                A.add("count==rank", len(sel) == r_full, "selected %d couplings %r, independent helicity amplitudes %d (full list %r)" % (len(sel), sel, r_full, full), w)
+                if sel:
+                    r_sel = mat(sel).rank()
+                    A.add("selected_span_everything", r_sel == r_full, "rank of the selected columns %d, of all columns %d" % (r_sel, r_full), w)
+    A.emit()
+
+
+# =================================================================================================
+# C13 / 5   chains without allowed (l,s) are removed (DecayConfig.decay_cut), also when a decay is shared between chains
+# =================================================================================================
+@group(["C13", "C19"], "config_loader.DecayConfig/ls_cut_shared_decays", ["config_loader.decay_config:DecayConfig.decay_cut", "config_loader.decay_config:DecayConfig.get_decay",
+                                                                         "particle:Decay.get_ls_list"],
+       env="tf", kind="G", cost=2,
+       bound="cascade A(1-) -> R S, R -> B C, S -> D E (all finals 0-): every non-empty sub-list of R candidates {1-, 2+, 3-} x every ordered list of 2..3 S candidates from "
+             "{0- (forbidden: no (l,s) for 0- -> 0- 0-), 1-, 0+}; and the 3-body analogue A -> R D",
+       assumes=["oracle: a chain survives iff every one of its two-body decays has a non-empty spec (l,s) set (triangle rules + parity), written from the statement"])
+def ls_cut_shared(ctx):
+    import contextlib
+    import io
+
+    DC = ctx.mod("config_loader.decay_config").DecayConfig
+    A = Agg(ctx)
+    A.declare("surviving_chains==oracle", "DecayConfig(config).get_decay() keeps exactly the chains all of whose decays have at least one allowed (l,s)")
+    A.declare("no_decay_without_coupling", "no decay of a surviving chain has an empty (l,s) list")
+    RS = {"R1": (1, -1), "R2": (2, 1), "R3": (3, -1)}
+    SS = {"S1": (0, -1), "S2": (1, -1), "S3": (0, 1)}
+    n = 0
+    for nr in (1, 2, 3):
+        for r_list in itertools.combinations(RS, nr):
+            for ns in (2, 3):
+                for s_list in itertools.permutations(SS, ns):
+                    cfg = {"decay": {"A": [["R", "S"]], "R": ["B", "C"], "S": ["D", "E"]},
+                           "particle": {"$top": {"A": {"J": 1, "P": -1, "mass": 5.0}},
+                                        "$finals": {k: {"J": 0, "P": -1, "mass": 0.1} for k in "BCDE"},
+                                        "R": list(r_list), "S": list(s_list)}}
+                    for k, (j, p_) in list(RS.items()) + list(SS.items()):
+                        cfg["particle"][k] = {"J": j, "P": p_, "mass": 1.0 + 0.1 * j, "width": 0.1}
+                    w = {"R": list(r_list), "S": list(s_list), "config_dict": cfg}
+                    n += 1
+                    ctx.count(key=(r_list, s_list), sample={"R": list(r_list), "S": list(s_list)})
+                    with contextlib.redirect_stdout(io.StringIO()):
+                        ok, grp = call(lambda: DC(copy_deep(cfg)).get_decay())  # noqa: B023
+                    if not A.add("surviving_chains==oracle", ok, "raised %s" % (grp,), w):
+                        continue
+                    got = sorted(tuple(sorted(str(p_) for p_ in ch.inner)) for ch in grp)
+                    want = []
+                    for r in r_list:
+                        for s_ in s_list:
+                            decs = [((1, -1), RS[r], SS[s_]), (RS[r], (0, -1), (0, -1)), (SS[s_], (0, -1), (0, -1))]
+                            if all(spec_ls(a[0], b[0], c[0], a[1], b[1], c[1], False, None) for a, b, c in decs):
+                                want.append(tuple(sorted((r, s_))))
+                    A.add("surviving_chains==oracle", got == sorted(want), "kept %r, oracle %r" % (got, sorted(want)), w)
+                    dead = [(str(ch), str(d)) for ch in grp for d in ch if len(d.get_ls_list()) == 0]
+                    A.add("no_decay_without_coupling", not dead, "decays without (l,s) in surviving chains: %r" % (dead[:4],), w)
+    A.emit()
+
+
+def copy_deep(x):
+    import copy
+
+    return copy.deepcopy(x)
+
+
+# =================================================================================================
 # C14 spec
 # =================================================================================================
 
